@@ -101,7 +101,7 @@ async fn active_id_of(s: &pearl::Storage<pearl::ArrayKey<8>>, dir: &std::path::P
 
 /// Dedicated scenario: an index dump is requested (try_close_active_blob) while the previous dump
 /// task is still running (its index write is delayed through an H1 failpoint): the request must not be lost.
-async fn dump_request_while_dumping(l: &mut Loose<8>, delay_ms: u64, closes: usize) -> Out {
+async fn dump_request_while_dumping(l: &mut Loose<8>, delay_ms: u64, closes: usize, sticky: bool) -> Out {
     use pearl::verif::tap;
     let mut out = Out { violation: None, inconclusive: None, bg_inapplicable: 0, rotations: 0, index_files_checked: 0, polls: 0 };
     if let Err(e) = l.open(false).await {
@@ -110,7 +110,7 @@ async fn dump_request_while_dumping(l: &mut Loose<8>, delay_ms: u64, closes: usi
     }
     let dir = l.dir.clone();
     tap::arm(&dir, false, false);
-    tap::set_faults(&dir, vec![tap::Fault { kinds: vec![tap::Kind::Write], suffix: ".index".into(), nth: 0, sticky: false, action: tap::Action::Delay(delay_ms) }]);
+    tap::set_faults(&dir, vec![tap::Fault { kinds: vec![tap::Kind::Write], suffix: ".index".into(), nth: 0, sticky, action: tap::Action::Delay(delay_ms) }]);
     for i in 0..closes {
         let _ = l.exec(&Op::Put { k: i as u16 % 4, ts: i as u64, meta: None, size: 20 }).await;
         let _ = l.exec(&Op::Close).await;
@@ -131,8 +131,10 @@ async fn dump_request_while_dumping(l: &mut Loose<8>, delay_ms: u64, closes: usi
             out.index_files_checked += checked;
             break;
         }
-        if t0.elapsed() > Duration::from_secs(3) && out.polls > 100 {
-            out.violation = Some(("dump-request-lost-while-dump-running".into(), format!("blobs {:?} were closed with try_close_active_blob while an earlier index dump was still running ({} ms delayed index write); their dump request was never served: no index file after {} worker barriers over {:?}", missing, delay_ms, out.polls, t0.elapsed())));
+        // generous multiple of everything the injected delays can add up to
+        let patience = Duration::from_secs(3) + if sticky { Duration::from_millis(delay_ms * closes as u64 * 10) } else { Duration::ZERO };
+        if t0.elapsed() > patience && out.polls > 100 {
+            out.violation = Some((if sticky { "closed-blob-never-dumped-after-long-dump-pass".to_string() } else { "dump-request-lost-while-dump-running".to_string() }, format!("blobs {:?} were closed with try_close_active_blob while an earlier index dump was still running ({} ms delayed index write); their dump request was never served: no index file after {} worker barriers over {:?}", missing, delay_ms, out.polls, t0.elapsed())));
             break;
         }
         tokio::time::sleep(Duration::from_millis(5)).await;
@@ -294,15 +296,22 @@ pub fn shard(ctx: &Ctx) -> Shard {
         let dir = new_dir("c13-");
         let mut l: Loose<8> = Loose::new(dir.clone(), cfg.clone());
         if n % 8 == 7 {
-            let delay = rng.range(20, 60);
-            let closes = rng.range(2, 4) as usize;
-            let r = block_on_catch(cfg.mt, dump_request_while_dumping(&mut l, delay, closes));
+            // variant A: the first index write is slow (a dump is requested while the previous one runs);
+            // variant B: every index write is slow, so that one dump pass over several closed blobs outlasts
+            // pearl's 200 ms time slice and has to be continued
+            let sticky = n % 24 == 23;
+            let delay = if sticky { rng.range(110, 260) } else { rng.range(20, 60) };
+            let closes = if sticky { rng.range(3, 5) as usize } else { rng.range(2, 4) as usize };
+            if sticky {
+                sh.add("dump_pass_longer_than_time_slice_scenarios", 1);
+            }
+            let r = block_on_catch(cfg.mt, dump_request_while_dumping(&mut l, delay, closes, sticky));
             rm_dir(&dir);
             n += 1;
             sh.evaluations += 1;
             sh.add("dump_while_dumping_scenarios", 1);
             sh.nontrivial.insert(fnv(format!("dwd-{}-{}-{}", delay, closes, cfg.mt).as_bytes()));
-            let replay = json!({"check": "c13-dump-while-dumping", "cfg": cfg.to_json(), "delay_ms": delay, "closes": closes});
+            let replay = json!({"check": "c13-dump-while-dumping", "cfg": cfg.to_json(), "delay_ms": delay, "closes": closes, "every_index_write_delayed": sticky});
             match r {
                 Ok(out) => {
                     sh.add("closed_blob_index_files_checked", out.index_files_checked);
